@@ -698,7 +698,7 @@ def main(chk: core.Check, replay: typing.Optional[str] = None) -> int:
             failures.append({'kind': 'translator-selftest', 'detail': b, 'all': bad_st[:10]})
 
     for rnd in range(rounds):
-        if not okc or failures:
+        if not okc:
             break
         work = core.scratch('c05-')
         spec = dsdlgen.generate(chk.rng, n_types=n_types, budget=1600 if chk.tier == 'quick' else 2400)
